@@ -3,6 +3,9 @@ package main
 // Structured merging of symbolic branches at the immediate post-dominator.
 
 import (
+	"fmt"
+	"os"
+
 	"golang.org/x/tools/go/ssa"
 )
 
@@ -127,6 +130,9 @@ func (e *Engine) cfgOf(fi *fnInfo, fn *ssa.Function) *cfgInfo {
 // resulting states at the post-dominator. On success st has been advanced to
 // the merged state.
 func (e *Engine) tryMerge(st *State, fr *Frame, x *ssa.If, c *Term, mT, mF Model) (ok bool) {
+	if ms := e.mergeStat[x]; ms != nil && ms.fail >= 4 && ms.fail > 8*ms.ok {
+		return false // this branch practically never merges: fork directly
+	}
 	ci := e.cfgOf(fr.Info, fr.Fn)
 	bi := fr.Block.Index
 	j := ci.ipdom[bi]
@@ -185,13 +191,16 @@ func (e *Engine) tryMerge(st *State, fr *Frame, x *ssa.If, c *Term, mT, mF Model
 	}()
 	if sides[0] == nil || sides[1] == nil {
 		e.res.MergeFails++
+		e.noteMerge(x, false)
 		return false
 	}
 	m, mok := e.mergeStates(st, sides[0], sides[1], c, depth)
 	if !mok {
 		e.res.MergeFails++
+		e.noteMerge(x, false)
 		return false
 	}
+	e.noteMerge(x, true)
 	used := e.cfg.SpecBudget - budget
 	_ = used
 	if st.Spec != nil {
@@ -380,4 +389,25 @@ func mergeObj(c *Term, a, b *ObjData, ep int) (*ObjData, bool) {
 	}
 	r.V = v
 	return r, true
+}
+
+type mergeStat struct{ ok, fail int }
+
+func (e *Engine) noteMerge(x *ssa.If, ok bool) {
+	if e.mergeStat == nil {
+		e.mergeStat = map[*ssa.If]*mergeStat{}
+	}
+	ms := e.mergeStat[x]
+	if ms == nil {
+		ms = &mergeStat{}
+		e.mergeStat[x] = ms
+	}
+	if ok {
+		ms.ok++
+	} else {
+		ms.fail++
+		if os.Getenv("VP_MERGELOG") != "" {
+			fmt.Fprintf(os.Stderr, "MERGEFAIL %s %s\n", x.Parent(), e.prog.Fset.Position(x.Pos()))
+		}
+	}
 }
